@@ -291,7 +291,18 @@ def _from_passive(pg):
     den = 5 ** pg["g5"] * 2 ** ((pg["g2"] + 1) // 2)
     s2 = ring(0, 1) if pg["g2"] % 2 == 1 else ring(1)
     P = [[q(rmul(s2, pg["M"][i][j]), den) for j in range(k)] for i in range(k)]
-    return {"name": pg["name"], "modes": pg["modes"], "P": P, "A": [[Q0] * k for _ in range(k)], "alpha": [Q0] * k, "passive": True, "mk": pg["mk"]}
+    g = {"name": pg["name"], "modes": pg["modes"], "P": P, "A": [[Q0] * k for _ in range(k)], "alpha": [Q0] * k, "passive": True, "mk": pg["mk"]}
+    if pg.get("dM"):
+        zero = [[Q0] * k for _ in range(k)]
+        g.update(cls=pg["cls"], params=pg["params"],
+                 dG=[(pn, [[q(rmul(s2, dM[i][j]), den) for j in range(k)] for i in range(k)], zero, [Q0] * k) for pn, dM in pg["dM"]])
+    return g
+
+
+def dgauss_record(g):
+    """Seq of derivative records [P, A, alpha] of a Gaussian lattice gate, one per differentiable parameter (PqGaussianGrad)"""
+    return "<< " + ", ".join("[P |-> %s, A |-> %s, alpha |-> <<%s>>]" % (tla_qmat(dP), tla_qmat(dA), ", ".join(tla_q(a) for a in da))
+                             for _, dP, dA, da in g.get("dG", [])) + " >>"
 
 
 SQUEEZE = {"ln2": (5, 3, 4, math.log(2.0)), "-ln2": (5, -3, 4, -math.log(2.0)), "ln3": (5, 4, 3, math.log(3.0))}     # cosh num, sinh num, den, r
@@ -299,33 +310,47 @@ SQUEEZE = {"ln2": (5, 3, 4, math.log(2.0)), "-ln2": (5, -3, 4, -math.log(2.0)), 
 
 def squeezing(i, rkey, k):
     c, s, den, r = SQUEEZE[rkey]
+    # P = cosh r, A = -e^{i phi} sinh r:  d/dr = (sinh r, -e^{i phi} cosh r),  d/dphi = (0, -i e^{i phi} sinh r)
     return {"name": f"Squeezing({rkey},{k}pi/2)", "modes": (i,), "P": [[q(ring(c), den)]], "A": [[qmul_unit(k, q(ring(-s), den))]], "alpha": [Q0],
-            "passive": False, "mk": lambda pq, r=r, phi=k * np.pi / 2: pq.Squeezing(r=r, phi=phi)}
+            "passive": False, "mk": lambda pq, r=r, phi=k * np.pi / 2: pq.Squeezing(r=r, phi=phi),
+            "cls": "Squeezing", "params": {"r": r, "phi": k * np.pi / 2},
+            "dG": [("r", [[q(ring(s), den)]], [[qmul_unit(k, q(ring(-c), den))]], [Q0]),
+                   ("phi", [[Q0]], [[qmul_unit(k + 1, q(ring(-s), den))]], [Q0])]}
 
 
 def squeezing2(i, j, rkey, k):
     c, s, den, r = SQUEEZE[rkey]
     es = qmul_unit(k, q(ring(s), den))
+    ec, ies = qmul_unit(k, q(ring(c), den)), qmul_unit(k + 1, q(ring(s), den))
     return {"name": f"Squeezing2({rkey},{k}pi/2)", "modes": (i, j), "P": [[q(ring(c), den), Q0], [Q0, q(ring(c), den)]], "A": [[Q0, es], [es, Q0]],
-            "alpha": [Q0, Q0], "passive": False, "mk": lambda pq, r=r, phi=k * np.pi / 2: pq.Squeezing2(r=r, phi=phi)}
+            "alpha": [Q0, Q0], "passive": False, "mk": lambda pq, r=r, phi=k * np.pi / 2: pq.Squeezing2(r=r, phi=phi),
+            "cls": "Squeezing2", "params": {"r": r, "phi": k * np.pi / 2},
+            "dG": [("r", [[q(ring(s), den), Q0], [Q0, q(ring(s), den)]], [[Q0, ec], [ec, Q0]], [Q0, Q0]),
+                   ("phi", [[Q0, Q0], [Q0, Q0]], [[Q0, ies], [ies, Q0]], [Q0, Q0])]}
 
 
 def quadratic_phase(i, snum, sden):
     half = q(ring(c=snum), 2 * sden)            # i s / 2
+    ih = q(ring(c=1), 2)                        # d/ds of (1 + i s / 2) and of (i s / 2)
     return {"name": f"QuadraticPhase({snum}/{sden})", "modes": (i,), "P": [[q(ring(2 * sden, 0, snum, 0), 2 * sden)]], "A": [[half]], "alpha": [Q0],
-            "passive": False, "mk": lambda pq, s=snum / sden: pq.QuadraticPhase(s=s)}
+            "passive": False, "mk": lambda pq, s=snum / sden: pq.QuadraticPhase(s=s),
+            "cls": "QuadraticPhase", "params": {"s": snum / sden}, "dG": [("s", [[ih]], [[ih]], [Q0])]}
 
 
 def controlled_x(i, j, snum, sden):
     h, mh = q(ring(snum), 2 * sden), q(ring(-snum), 2 * sden)
+    d1, dm = q(ring(1), 2), q(ring(-1), 2)
     return {"name": f"ControlledX({snum}/{sden})", "modes": (i, j), "P": [[Q1, mh], [h, Q1]], "A": [[Q0, h], [h, Q0]], "alpha": [Q0, Q0],
-            "passive": False, "mk": lambda pq, s=snum / sden: pq.ControlledX(s=s)}
+            "passive": False, "mk": lambda pq, s=snum / sden: pq.ControlledX(s=s),
+            "cls": "ControlledX", "params": {"s": snum / sden}, "dG": [("s", [[Q0, dm], [d1, Q0]], [[Q0, d1], [d1, Q0]], [Q0, Q0])]}
 
 
 def controlled_z(i, j, snum, sden):
     ih = q(ring(c=snum), 2 * sden)
+    di = q(ring(c=1), 2)
     return {"name": f"ControlledZ({snum}/{sden})", "modes": (i, j), "P": [[Q1, ih], [ih, Q1]], "A": [[Q0, ih], [ih, Q0]], "alpha": [Q0, Q0],
-            "passive": False, "mk": lambda pq, s=snum / sden: pq.ControlledZ(s=s)}
+            "passive": False, "mk": lambda pq, s=snum / sden: pq.ControlledZ(s=s),
+            "cls": "ControlledZ", "params": {"s": snum / sden}, "dG": [("s", [[Q0, di], [di, Q0]], [[Q0, di], [di, Q0]], [Q0, Q0])]}
 
 
 def displacement(i, rnum, rden, k, kind="Displacement"):
@@ -338,7 +363,11 @@ def displacement(i, rnum, rden, k, kind="Displacement"):
     else:
         a = q(ring(c=rnum), rden)
         mk = lambda pq, p=rnum / rden: pq.MomentumDisplacement(p=p)                          # noqa
-    return {"name": f"{kind}({rnum}/{rden},{k}pi/2)", "modes": (i,), "P": [[Q1]], "A": [[Q0]], "alpha": [a], "passive": False, "mk": mk}
+    g = {"name": f"{kind}({rnum}/{rden},{k}pi/2)", "modes": (i,), "P": [[Q1]], "A": [[Q0]], "alpha": [a], "passive": False, "mk": mk}
+    if kind == "Displacement":          # alpha = r e^{i phi}
+        g.update(cls="Displacement", params={"r": rnum / rden, "phi": k * np.pi / 2},
+                 dG=[("r", [[Q0]], [[Q0]], [qmul_unit(k, Q1)]), ("phi", [[Q0]], [[Q0]], [qmul_unit(k + 1, q(ring(rnum), rden))])])
+    return g
 
 
 def gaussian_transform(i, j):
